@@ -20,8 +20,8 @@ import (
 	"bytes"
 	"context"
 	"crypto/sha256"
-	"encoding/json"
 	"encoding/binary"
+	"encoding/json"
 	"fmt"
 	"go/ast"
 	"go/parser"
@@ -94,15 +94,15 @@ func (b c12Blob) bytes() []byte {
 }
 
 type c12Op struct {
-	Kind    string    `json:"kind"` // upload | create | copy | delete | pull
-	Name    string    `json:"name,omitempty"`
-	Src     string    `json:"src,omitempty"`
-	Uploads []c12Blob `json:"uploads,omitempty"` // upload: the blob; create: blobs the client uploads first
-	File    string    `json:"file,omitempty"`    // create: digest of the gguf file named in Files
-	Files   map[string]string `json:"files,omitempty"` // create from safetensors: file name -> digest (instead of File)
-	System  string    `json:"system,omitempty"`
-	Tmpl    string    `json:"tmpl,omitempty"`
-	From    string    `json:"from,omitempty"` // create FROM an existing model (instead of File / Files)
+	Kind    string            `json:"kind"` // upload | create | copy | delete | pull
+	Name    string            `json:"name,omitempty"`
+	Src     string            `json:"src,omitempty"`
+	Uploads []c12Blob         `json:"uploads,omitempty"` // upload: the blob; create: blobs the client uploads first
+	File    string            `json:"file,omitempty"`    // create: digest of the gguf file named in Files
+	Files   map[string]string `json:"files,omitempty"`   // create from safetensors: file name -> digest (instead of File)
+	System  string            `json:"system,omitempty"`
+	Tmpl    string            `json:"tmpl,omitempty"`
+	From    string            `json:"from,omitempty"` // create FROM an existing model (instead of File / Files)
 	// pull: what the (honest) registry serves
 	Manifest string    `json:"manifest,omitempty"` // JSON text
 	Blobs    []c12Blob `json:"blobs,omitempty"`
@@ -383,70 +383,126 @@ func TestVerifC12Serve(t *testing.T) {
 // it sits inside a `go` statement, a function literal or a `defer`, and the conditions of its enclosing ifs.
 func TestVerifC12Facts(t *testing.T) {
 	fset := token.NewFileSet()
-	f, err := parser.ParseFile(fset, "routes.go", nil, 0)
+	pkgs, err := parser.ParseDir(fset, ".", func(fi os.FileInfo) bool { return !strings.HasSuffix(fi.Name(), "_test.go") }, 0)
 	if err != nil {
 		t.Fatal(err)
+	}
+	// package-level functions without receiver, by name: a helper that Serve calls is walked as if its body stood at the
+	// call (round 7: extracting the repair into a helper is a harmless rewrite)
+	funcs := map[string]*ast.FuncDecl{}
+	for _, pkg := range pkgs {
+		for _, f := range pkg.Files {
+			for _, d := range f.Decls {
+				if fd, ok := d.(*ast.FuncDecl); ok && fd.Recv == nil && fd.Body != nil {
+					funcs[fd.Name.Name] = fd
+				}
+			}
+		}
 	}
 	show := func(n ast.Node) string {
 		var b bytes.Buffer
 		printer.Fprint(&b, fset, n)
 		return strings.Join(strings.Fields(b.String()), " ")
 	}
+	// a guard is normalised to what the model's restartWith depends on: is it "OLLAMA_NOPRUNE is not set"?
+	guard := func(kind, cond string) string { // kind: if | else-of | unless (statements after `if cond { …; return }`)
+		tag := "cond"
+		if strings.Contains(cond, "NoPrune()") {
+			neg := strings.Contains(cond, "!envconfig.NoPrune()") || strings.Contains(cond, "!NoPrune()")
+			off := (kind == "if" && neg) || (kind != "if" && !neg)
+			tag = "noprune-on"
+			if off {
+				tag = "noprune-off"
+			}
+		}
+		return tag + ": " + kind + " " + cond
+	}
+	tracked := map[string]bool{"fixBlobs": true, "Manifests": true, "PruneLayers": true, "PruneDirectory": true,
+		"srvr.Serve": true, "http.Serve": true, "envconfig.NoPrune": true}
 	var lines []string
-	for _, d := range f.Decls {
-		fd, ok := d.(*ast.FuncDecl)
-		if !ok || fd.Name.Name != "Serve" || fd.Recv != nil {
-			continue
+	terminates := func(b *ast.BlockStmt) bool {
+		if b == nil || len(b.List) == 0 {
+			return false
 		}
-		var walk func(n ast.Node, async bool, conds []string)
-		walk = func(n ast.Node, async bool, conds []string) {
-			switch x := n.(type) {
-			case nil:
-				return
-			case *ast.GoStmt:
-				walk(x.Call, true, conds)
-				return
-			case *ast.DeferStmt:
-				walk(x.Call, true, conds)
-				return
-			case *ast.FuncLit:
-				walk(x.Body, true, conds)
-				return
-			case *ast.IfStmt:
-				cond := show(x.Cond)
-				if x.Init != nil {
-					walk(x.Init, async, conds)
-					cond = show(x.Init) + "; " + cond
-				}
-				walk(x.Cond, async, conds)
-				walk(x.Body, async, append(append([]string{}, conds...), "if "+cond))
-				if x.Else != nil {
-					walk(x.Else, async, append(append([]string{}, conds...), "else-of "+cond))
-				}
-				return
-			case *ast.CallExpr:
-				name := show(x.Fun)
-				switch name {
-				case "fixBlobs", "Manifests", "PruneLayers", "PruneDirectory", "srvr.Serve", "http.Serve", "envconfig.NoPrune":
-					lines = append(lines, fmt.Sprintf("%s\t%v\t%s", name, async, strings.Join(conds, " && ")))
+		_, ok := b.List[len(b.List)-1].(*ast.ReturnStmt)
+		return ok
+	}
+	errCheck := regexp.MustCompile(`^\w+ != nil$`)
+	var walk func(n ast.Node, async bool, conds []string, depth int)
+	walk = func(n ast.Node, async bool, conds []string, depth int) {
+		with := func(g string) []string { return append(append([]string{}, conds...), g) }
+		switch x := n.(type) {
+		case nil:
+			return
+		case *ast.GoStmt:
+			walk(x.Call, true, conds, depth)
+			return
+		case *ast.DeferStmt:
+			walk(x.Call, true, conds, depth)
+			return
+		case *ast.FuncLit:
+			walk(x.Body, true, conds, depth)
+			return
+		case *ast.BlockStmt:
+			cur := conds
+			for _, st := range x.List {
+				walk(st, async, cur, depth)
+				// `if c { …; return }` without else: what follows runs only when c is false
+				if is, ok := st.(*ast.IfStmt); ok && is.Else == nil && terminates(is.Body) {
+					c := show(is.Cond)
+					if errCheck.MatchString(c) {
+						continue // `if err != nil { return err }`: error propagation, not a condition of the repair
+					}
+					if is.Init != nil {
+						c = show(is.Init) + "; " + c
+					}
+					cur = append(append([]string{}, cur...), guard("unless", c))
 				}
 			}
-			// generic descent, in source order
-			var kids []ast.Node
-			ast.Inspect(n, func(c ast.Node) bool {
-				if c == n {
-					return true
+			return
+		case *ast.IfStmt:
+			cond := show(x.Cond)
+			if x.Init != nil {
+				walk(x.Init, async, conds, depth)
+				cond = show(x.Init) + "; " + cond
+			}
+			walk(x.Cond, async, conds, depth)
+			walk(x.Body, async, with(guard("if", cond)), depth)
+			if x.Else != nil {
+				walk(x.Else, async, with(guard("else-of", cond)), depth)
+			}
+			return
+		case *ast.CallExpr:
+			name := show(x.Fun)
+			if tracked[name] {
+				lines = append(lines, fmt.Sprintf("%s\t%v\t%s", name, async, strings.Join(conds, " ;; ")))
+			} else if id, ok := x.Fun.(*ast.Ident); ok && depth < 3 {
+				if fd := funcs[id.Name]; fd != nil && fd.Name.Name != "Serve" {
+					for _, a := range x.Args {
+						walk(a, async, conds, depth)
+					}
+					walk(fd.Body, async, conds, depth+1)
+					return
 				}
-				if c != nil {
-					kids = append(kids, c)
-				}
-				return false
-			})
-			for _, k := range kids {
-				walk(k, async, conds)
 			}
 		}
-		walk(fd.Body, false, nil)
+		// generic descent, in source order
+		var kids []ast.Node
+		ast.Inspect(n, func(c ast.Node) bool {
+			if c == n {
+				return true
+			}
+			if c != nil {
+				kids = append(kids, c)
+			}
+			return false
+		})
+		for _, k := range kids {
+			walk(k, async, conds, depth)
+		}
+	}
+	if fd := funcs["Serve"]; fd != nil {
+		walk(fd.Body, false, nil, 0)
 	}
 	if err := os.WriteFile(filepath.Join(zzverif.OutDir(), "facts.txt"), []byte(strings.Join(lines, "\n")+"\n"), 0o644); err != nil {
 		t.Fatal(err)
@@ -795,12 +851,12 @@ func c12TraceX(argv, env []string, store string, killAt int, logPath string, opt
 // canonicalisation: syscalls -> the model's effect alphabet
 
 var (
-	c12ReBlob    = regexp.MustCompile(`^blobs/sha256-([0-9a-f]{64})$`)
-	c12RePartial = regexp.MustCompile(`^blobs/sha256-([0-9a-f]{64})-partial$`)
-	c12RePart    = regexp.MustCompile(`^blobs/sha256-([0-9a-f]{64})-partial-([0-9]+)$`)
-	c12ReTemp    = regexp.MustCompile(`^blobs/(sha256-[0-9]+|tmp-[0-9]+)$`)
+	c12ReBlob      = regexp.MustCompile(`^blobs/sha256-([0-9a-f]{64})$`)
+	c12RePartial   = regexp.MustCompile(`^blobs/sha256-([0-9a-f]{64})-partial$`)
+	c12RePart      = regexp.MustCompile(`^blobs/sha256-([0-9a-f]{64})-partial-([0-9]+)$`)
+	c12ReTemp      = regexp.MustCompile(`^blobs/(sha256-[0-9]+|tmp-[0-9]+)$`)
 	c12ReBlobsJunk = regexp.MustCompile(`^blobs/([^/]+)$`)
-	c12ReMan     = regexp.MustCompile(`^manifests/([^/]+/[^/]+/[^/]+/[^/]+)$`)
+	c12ReMan       = regexp.MustCompile(`^manifests/([^/]+/[^/]+/[^/]+/[^/]+)$`)
 )
 
 type c12Canon struct {
@@ -992,37 +1048,37 @@ func c12State(store string) []string {
 	var out []string
 	c12WalkLogical(store, func(p string, fi os.FileInfo) {
 		func() error {
-		cp := c.path(p)
-		if !fi.Mode().IsRegular() { // FIFO etc.: an entry without content
+			cp := c.path(p)
+			if !fi.Mode().IsRegular() { // FIFO etc.: an entry without content
+				if strings.HasPrefix(cp, "T:") {
+					cp = "T:*"
+				}
+				out = append(out, cp+"=raw:-")
+				return nil
+			}
+			if fi.Size() > 1<<20 { // summarise: length + hash of the WHOLE content (two crash states that differ anywhere differ)
+				h := sha256.New()
+				if f, err := os.Open(p); err == nil {
+					io.Copy(h, f)
+					f.Close()
+				}
+				if strings.HasPrefix(cp, "T:") {
+					cp = "T:*"
+				}
+				out = append(out, fmt.Sprintf("%s=big:%d:%x", cp, fi.Size(), h.Sum(nil)[:8]))
+				return nil
+			}
+			data, _ := os.ReadFile(p)
+			kind := cp
 			if strings.HasPrefix(cp, "T:") {
 				cp = "T:*"
+				kind = cp
+				if c12IsAtomicTemp(p) {
+					kind = "A:"
+				}
 			}
-			out = append(out, cp+"=raw:-")
+			out = append(out, cp+"="+c12Content(kind, data))
 			return nil
-		}
-		if fi.Size() > 1<<20 { // summarise: length + hash of the WHOLE content (two crash states that differ anywhere differ)
-			h := sha256.New()
-			if f, err := os.Open(p); err == nil {
-				io.Copy(h, f)
-				f.Close()
-			}
-			if strings.HasPrefix(cp, "T:") {
-				cp = "T:*"
-			}
-			out = append(out, fmt.Sprintf("%s=big:%d:%x", cp, fi.Size(), h.Sum(nil)[:8]))
-			return nil
-		}
-		data, _ := os.ReadFile(p)
-		kind := cp
-		if strings.HasPrefix(cp, "T:") {
-			cp = "T:*"
-			kind = cp
-			if c12IsAtomicTemp(p) {
-				kind = "A:"
-			}
-		}
-		out = append(out, cp+"="+c12Content(kind, data))
-		return nil
 		}()
 	})
 	sort.Strings(out)
@@ -1758,7 +1814,7 @@ func TestVerifC12(t *testing.T) {
 		stFiles := map[string][]byte{
 			"model.safetensors": stBuf.Bytes(),
 			"config.json":       []byte(`{"architectures": ["LlamaForCausalLM"], "vocab_size": 8}`),
-			"tokenizer.json": []byte(`{"version": "1.0", "truncation": null, "padding": null, "added_tokens": [{"id": 0, "content": "<|endoftext|>", "single_word": false, "lstrip": false, "rstrip": false, "normalized": false, "special": true}]}`),
+			"tokenizer.json":    []byte(`{"version": "1.0", "truncation": null, "padding": null, "added_tokens": [{"id": 0, "content": "<|endoftext|>", "single_word": false, "lstrip": false, "rstrip": false, "normalized": false, "special": true}]}`),
 		}
 		opCreateST := c12Op{Kind: "create", Name: "st", Files: map[string]string{}, System: "from safetensors", Chunk: 64}
 		for _, name := range []string{"config.json", "model.safetensors", "tokenizer.json"} {
@@ -1909,24 +1965,24 @@ func TestVerifC12(t *testing.T) {
 			job := ""
 			if !sc.NoL1 {
 				// round 7: a registry that serves DAMAGED bytes for one digest is inside the model too (reg maps the
-			// digest to the damaged bytes: download, rename, failed verification, removal) — the job is built from
-			// what the registry really served
-			modelOp := sc.Op
-			if sc.Op.Fault == "damaged" {
-				d := *sc.Op
-				d.Blobs = nil
-				for _, b := range sc.Op.Blobs {
-					if b.Digest == sc.Op.FaultDigest {
-						bad := append([]byte{}, b.bytes()...)
-						bad[len(bad)/2] ^= 0x20
-						b = c12Blob{Digest: b.Digest, Data: zzverif.Hex(bad)}
+				// digest to the damaged bytes: download, rename, failed verification, removal) — the job is built from
+				// what the registry really served
+				modelOp := sc.Op
+				if sc.Op.Fault == "damaged" {
+					d := *sc.Op
+					d.Blobs = nil
+					for _, b := range sc.Op.Blobs {
+						if b.Digest == sc.Op.FaultDigest {
+							bad := append([]byte{}, b.bytes()...)
+							bad[len(bad)/2] ^= 0x20
+							b = c12Blob{Digest: b.Digest, Data: zzverif.Hex(bad)}
+						}
+						d.Blobs = append(d.Blobs, b)
 					}
-					d.Blobs = append(d.Blobs, b)
+					modelOp = &d
+					out.Count("l1_damaged_registry_scenarios")
 				}
-				modelOp = &d
-				out.Count("l1_damaged_registry_scenarios")
-			}
-			opToks, hashed := c12OpTokens(modelOp, full)
+				opToks, hashed := c12OpTokens(modelOp, full)
 				npTok := 0
 				if sc.Op.NoPrune {
 					npTok = 1
